@@ -3,6 +3,9 @@ mod engine;
 mod isa;
 mod mach;
 mod progen_sem;
+mod refasm;
+mod refparse;
+mod textgen;
 mod props;
 
 use engine::{Ctx, Tier};
@@ -65,7 +68,11 @@ fn main() {
         match id.as_str() {
         "C01" => props::cpu::run(&ctx, props::cpu::Which::Semantics),
         "C15" => props::cpu::run(&ctx, props::cpu::Which::Cycles),
-        "C04" => props::c04::run(&ctx),
+        "C02" => props::text::run(&ctx, props::text::Which::C02),
+            "C03" => props::text::run(&ctx, props::text::Which::C03),
+            "C06" => props::text::run(&ctx, props::text::Which::C06),
+            "C16" => props::text::run(&ctx, props::text::Which::C16),
+            "C04" => props::c04::run(&ctx),
             "C05" => props::c05::run(&ctx),
             "C07" => props::c07::run(&ctx),
             "C08" => props::c08::run(&ctx),
